@@ -156,6 +156,7 @@ def value_items(c, name, f, depth, rng):
         out += [meta(name, "nv", "s:zz"), meta(name, "word"), meta(name, "list"), meta(name, "nv", "i:5"), meta(name, "junk"),
                 meta(name, "list", items=[lit("s:x")]), meta(name, "list", items=[meta("zz", "word")])]
         if writable(fn):
+            out.append(meta(name, "list", items=[meta("ns::" + fn, "word")]))       # a qualified path that merely ends in a variant's name
             out.append(meta(name, "list", items=[meta(fn, "word"), meta(fn, "word")]))
             out.append(meta(name, "list", items=[meta(fn[:-1] if len(fn) > 1 else fn + "x", "word")]))
     elif k == "map":
